@@ -661,12 +661,13 @@ Section Forms.
     end.
 
   Definition restores_in_finally : bool :=
-    grad_finally fl && mg_finally fl && mj_finally fl && (nj_flat_copy fl && nj_pert_copy fl).
+    grad_finally fl && mg_finally fl && mj_finally fl && (nj_flat_copy fl && nj_pert_copy fl) && fn_own_frame fl.
 
   Lemma k_run_form : forall fm,
     restores_in_finally = true -> safe_form fm -> params_not_written fm -> keeps Good (run_form fl autograd O fm).
   Proof.
     intros fm Hfl Hs Hw. unfold restores_in_finally in Hfl.
+    apply andb_true_iff in Hfl. destruct Hfl as [Hfl _].
     apply andb_true_iff in Hfl. destruct Hfl as [Hfl Hnj]. apply andb_true_iff in Hnj.
     apply andb_true_iff in Hfl. destruct Hfl as [Hfl Hmj].
     apply andb_true_iff in Hfl. destruct Hfl as [Hg Hmg].
